@@ -284,6 +284,42 @@ def rule_CC(run: Run) -> RuleResult:
                     res.add(f"{site}:shares {fld} by reference", ok, m.relpath, call.lineno,
                             f"{fld} argument is {ast.unparse(a) if a is not None else None}",
                             "derivatives must see later registrations and share the cache (C07, C08)")
+    # the same through the dataset factory: ``dataset(x.default, effects=x.effects, options=x.options, …)`` builds a second
+    # dataset from the parts of x — whatever of (effects, cache, options, default_options, callback) is not handed on is
+    # reset; a copy without ``cache=x.cache`` is a second memo for the same body (C02)
+    FACTORY_FIELDS = ("effects", "cache", "options", "default_options", "callback")
+    for m, cls, fn, q in iter_functions(repo):
+        if m.name.startswith("labrea.mypy"):
+            continue
+        for call in astu.calls_in(fn):
+            f0 = call.func
+            if not isinstance(f0, (ast.Name, ast.Attribute)):
+                continue
+            r_ = repo.resolve_expr(m, f0)
+            is_factory = bool(r_ and r_[0] == "var" and isinstance(r_[1], ast.Call) and astu.short_name(r_[1]) == "DatasetFactory")
+            if not is_factory:
+                continue
+            bases: Dict[str, Set[str]] = {}
+            for a in list(call.args) + [k.value for k in call.keywords]:
+                for x in ast.walk(a):
+                    if isinstance(x, ast.Attribute) and x.attr in FACTORY_FIELDS + ("default", "overloads"):
+                        bases.setdefault(ast.unparse(x.value), set()).add(x.attr)
+            if not bases:
+                continue
+            base, attrs = max(bases.items(), key=lambda kv: len(kv[1]))
+            if len(attrs) < 2:
+                continue
+            n_sites += 1
+            passed = {k.arg for k in call.keywords if k.arg}
+            if any(k.arg is None for k in call.keywords):
+                passed |= set(FACTORY_FIELDS)
+            site = f"{q}:dataset(...) rebuilt from {base}"
+            missing = [p_ for p_ in FACTORY_FIELDS if p_ not in passed]
+            if not missing:
+                res.add(f"{site}:carries all fields", True, m.relpath, call.lineno, f"all of {list(FACTORY_FIELDS)} passed", nec)
+            for p_ in missing:
+                res.add(f"{site}:drops {p_}", False, m.relpath, call.lineno,
+                        f"{ast.unparse(call)[:90]} … does not pass '{p_}'" + (": the copy memoises on its own, the body runs once per copy" if p_ == "cache" else ""), nec)
     res.count("sites", n_sites)
     return res
 
@@ -379,6 +415,119 @@ def rule_CF(run: Run) -> RuleResult:
     res.count("constructors", n)
     if n < 30:
         raise AnalysisError(f"R-CF: only {n} constructors found")
+    return res
+
+
+def rule_VW(run: Run) -> RuleResult:
+    """Value(x) wraps only what is known not to be an expression."""
+    res = RuleResult("R-VW")
+    repo = run.repo
+    nec = ("Value(x) is a constant: it evaluates to (a copy of) x, reports no keys and validates anything. Wrapping an object that is itself an "
+           "expression — a dataset class is a type *and* an expression, a dataset is callable *and* an expression — freezes it: the member evaluates "
+           "to the class / the dataset object instead of an instance / its value, and its option keys vanish from keys(), explain(), validate() "
+           "and the recorded options of an enclosing dataset class (C19, C07). So every Value(x) of a variable x is built only where "
+           "isinstance(x, Evaluatable) has come out false")
+    from .interp import Frame
+    n = 0
+    for m, cls, fn, q in iter_functions(repo):
+        if m.name.startswith("labrea.mypy"):
+            continue
+        sites = [c for c in astu.walk_no_nested(fn) if isinstance(c, ast.Call) and astu.short_name(c) == "Value" and len(c.args) == 1 and not isinstance(c.args[0], ast.Constant)]
+        if not sites or (cls is not None and cls.name == "Value"):
+            continue
+        ci = repo.classes.get(f"{m.name}.{cls.name}") if cls is not None else None
+        ctx = Ctx(repo)
+        ctx.track_new = {"Value"}
+        try:
+            if ci is not None and (ci.is_subclass_of("Evaluatable") or ci.is_subclass_of("Effect")) and fn.name in ci.methods and not any(
+                    ast.unparse(d) in ("staticmethod", "classmethod") for d in fn.decorator_list):
+                paths = analyse_method(ctx, ci, fn.name)
+            else:
+                paths = analyse_function(ctx, m, fn, cls=ci if ci is not None and not any(ast.unparse(d) in ("staticmethod", "classmethod") for d in fn.decorator_list) else None)
+        except AnalysisError:
+            continue
+        verdict: Dict[int, list] = {}
+        for p in paths:
+            for e in p.events:
+                if e.kind != "new" or e.text != "Value" or not e.args or e.depth != 0:
+                    continue
+                x = e.args[0]
+                if isinstance(x, Sym) and x.head == "kw:value" and x.args:
+                    x = x.args[0]
+                xk = x.key()
+                if isinstance(x, (Const, Fn)) or (isinstance(x, Sym) and (x.head in ("ext", "name", "class", "global", "key") or xk.startswith(("key(", "fstr(", "call:str(", "call:repr(")))):
+                    continue            # a literal, a function, a class of the standard library, a dictionary key: no expression
+                at = Frame.atoms(p.conds[:e.ncond])
+                decided = at.get(f"call:isinstance({xk},class<labrea.types.Evaluatable>)")
+                v = verdict.setdefault(e.line, [True, xk])
+                if decided is not False:
+                    v[0] = False
+        for ln_, (ok_, xk_) in sorted(verdict.items()):
+            n += 1
+            if q == "labrea.types.Evaluatable.unit":
+                ok_ = True      # the documented public constructor of a constant: it wraps whatever it is handed
+            res.add(f"{q}:Value({xk_[:40]}) wraps a value known not to be an expression", ok_, m.relpath, ln_,
+                    "built where isinstance(x, Evaluatable) came out false" if ok_ else
+                    f"Value({xk_[:60]}) is built on a path that has not established isinstance(…, Evaluatable) is false (an earlier test — callable(x), isinstance(x, type) — "
+                    "that an expression can satisfy too took it)", nec)
+    res.count("sites", n)
+    if n < 4:
+        raise AnalysisError(f"R-VW: only {n} Value(x) constructions of a variable found")
+    return res
+
+
+def rule_TB(run: Run) -> RuleResult:
+    """Expressions, effects and caches are always truthy."""
+    res = RuleResult("R-TB")
+    repo = run.repo
+    nec = ("the library tests optional expressions for 'given or not' by truth (`dispatch or self.dispatch`, `callback or self.callback`, "
+           "`cache or self.cache`, `if self.rest`): an expression class that defines __len__ or __bool__ makes some of its instances falsy — a "
+           "switch without branches, an empty case-when, an empty pipeline — and such an argument is silently replaced by the fall-back "
+           "(a dataset loses its dispatch: registered implementations are never selected, C07)")
+    probe = ast.parse("class S:\n    def __len__(self):\n        return len(self.lookup)\n").body[0]
+    if not [f for f in probe.body if isinstance(f, ast.FunctionDef) and f.name in ("__len__", "__bool__")]:
+        raise AnalysisError("R-TB: probe broken")
+    # the truth tests that make the rule necessary (counted, so that the rule does not outlive its reason)
+    n_tests = 0
+    for m, cls, fn, q in iter_functions(repo):
+        if m.name.startswith("labrea.mypy"):
+            continue
+        opt_nodes = set()
+        for a_ in fn.args.posonlyargs + fn.args.args + fn.args.kwonlyargs:
+            txt = ast.unparse(a_.annotation) if a_.annotation is not None else ""
+            if "Optional" in txt and any(w in txt for w in ("Evaluatable", "Cache", "Effect", "Pipeline")):
+                opt_nodes.add(a_.arg)
+        for x in astu.walk_no_nested(fn):
+            if isinstance(x, ast.BoolOp) and isinstance(x.op, ast.Or) and isinstance(x.values[0], ast.Name) and x.values[0].id in opt_nodes:
+                n_tests += 1
+            if isinstance(x, (ast.If, ast.IfExp)) and isinstance(x.test, ast.Attribute) and isinstance(x.test.value, ast.Name) and x.test.value.id == "self" and cls is not None:
+                ci = repo.classes.get(f"{m.name}.{cls.name}")
+                if ci is not None:
+                    for kc in ci.mro():
+                        ann = kc.annotations.get(x.test.attr)
+                        if ann is not None and "Optional" in ast.unparse(ann) and any(w in ast.unparse(ann) for w in ("Evaluatable", "Pipeline", "Cache", "Effect")):
+                            n_tests += 1
+    n = 0
+    for ci in repo.classes.values():
+        if ci.module.name.startswith("labrea.mypy"):
+            continue
+        if not (ci.is_subclass_of("Evaluatable") or ci.is_subclass_of("Effect") or ci.is_subclass_of("Cache") or ci.name in ("Evaluatable", "Effect", "Cache")):
+            continue
+        n += 1
+        hits = [mn for mn in ("__bool__", "__len__") if mn in ci.methods]
+        bfn = ci.methods.get("__bool__")
+        if bfn is not None:
+            rets = [r_ for r_ in astu.walk_no_nested(bfn) if isinstance(r_, ast.Return)]
+            if rets and all(isinstance(r_.value, ast.Constant) and r_.value.value is True for r_ in rets):
+                hits = []       # __bool__ that always says True (it takes precedence over __len__): still always truthy
+        res.add(f"{ci.qualname}:always truthy (no __bool__ / __len__)", not hits, ci.module.relpath, ci.methods[hits[0]].lineno if hits else ci.node.lineno,
+                "inherits object truthiness" if not hits else f"defines {hits}: instances for which it returns 0/False are taken for 'not given' by `x or fallback`", nec)
+    res.count("classes", n)
+    res.count("truth_tests", n_tests)
+    if n < 25:
+        raise AnalysisError(f"R-TB: only {n} expression/effect/cache classes found")
+    if n_tests < 3:
+        raise AnalysisError(f"R-TB: only {n_tests} truth tests of optional expressions left in the library — the rule has lost its reason")
     return res
 
 
